@@ -5,6 +5,10 @@ import os
 VERIF = os.path.dirname(os.path.dirname(os.path.abspath(__file__)))
 
 CHECKS = {
+    "C09": dict(engine="sched", level="exploration", design="4/C09, 2.5",
+                technique="deterministic simulation: seeded scheduler over real threads (baton passing, settrace pre-emption points, cooperative lock wrapper); random, PCT and single-pre-emption-sweep schedules",
+                text="2-3 real threads run call scripts (single calls and call_batch, equal and different keys, nested DAG) on cold store / warm store + cold cache / warm cache over filesystem, filesystem + 5 KiB cache and memory backends. A seeded scheduler decides at every call event in twosigma.memento and every line of the runner, call-stack and storage modules which thread runs next (random pre-emption, PCT d<=3, and systematic single-pre-emption sweeps). Each schedule must give every caller the sequential value, let no exception escape, run each not-yet-memoized distinct call's body exactly once (zero when warm), leave usage counter = sum of resident sizes <= budget, queue = key set without duplicates, correct resident values, and finish without deadlock within the step cap.",
+                note="Sampling of schedules (systematic only for one pre-emption on five base scenarios). Line-level, not bytecode-level, pre-emption. User function bodies are atomic."),
     "C05": dict(engine="store", level="exploration", design="4/C05, 3.2",
                 technique="deterministic simulation: seeded operation histories on three backends in lock-step vs. a dictionary reference model, restarts as operations",
                 text="Seeded operation histories over a small function/argument/value alphabet (prefix names, versions 1 vs 10, size classes relative to the drawn cache budget, key overrides, metadata, restarts) are executed in lock-step on the filesystem, filesystem+cache and memory backends; every answer is compared with a plain dictionary model, listings are compared after every operation and a full sweep (nothing forgotten reappears, every live entry reads its last value) runs at every restart and at the end.",
